@@ -152,6 +152,12 @@ func c03Run(c *mon.Ctx, unit int) {
 				v, class = gen.RandomValue(dg.R, 3), "unrelated"
 			}
 			doc := v.Text()
+			if j%3 == 1 {
+				// the same schema object was given a document that breaks off (a broken upload,
+				// an empty body) just before: what that validation leaves behind - candidates of
+				// unions still alive - must not reach the next one
+				built.validate(mon.Pick(r, []string{doc[:len(doc)/2], doc[:len(doc)*2/3], "", "  ", doc[:len(doc)-1]}))
+			}
 			c03Compare(c, s, sp, built, v, doc, class)
 		}
 		// differential: `@T` as root behaves like T's own text as root
